@@ -146,7 +146,20 @@ class ContinueCanonicalizationTransformer(converter.Base):
 
   def visit_Try(self, node):
     node.body = self._visit_non_loop_body(node.body)
+    # The else clause continues the body: it must not run once the body has
+    # continued (a lowered continue or break no longer leaves the body).
+    body_may_continue = (self.state[_Block].level > 0 and
+                         self.state[_Block].create_guard_next)
     node.orelse = self._visit_non_loop_body(node.orelse)
+    if node.orelse and body_may_continue:
+      template = """
+        if not var_name:
+          orelse
+      """
+      node.orelse = templates.replace(
+          template,
+          var_name=self.state[_Continue].control_var_name,
+          orelse=node.orelse)
     # In Python 3.8 and later continue is allowed in finally blocks
     node.finalbody = self._visit_non_loop_body(node.finalbody)
     node.handlers = self.visit_block(node.handlers)
